@@ -36,6 +36,18 @@ pub enum Attach {
 
 thread_local! {
     static STREAM_VARIANT: std::cell::Cell<bool> = const { std::cell::Cell::new(false) };
+    /// items that are ready on the attached stream from the start (stream variant only)
+    static STREAM_ITEMS: std::cell::RefCell<Vec<u32>> = const { std::cell::RefCell::new(Vec::new()) };
+}
+
+/// The stream variant with a few items ready on the stream from the start (the stream then stays
+/// open and silent): mailbox and stream are ready at the same time, so the loop's tie-break is
+/// real and must not cost either side anything.
+pub fn with_stream_variant_items<T>(items: Vec<u32>, f: impl FnOnce() -> T) -> T {
+    STREAM_ITEMS.with(|s| *s.borrow_mut() = items);
+    let r = with_stream_variant(f);
+    STREAM_ITEMS.with(|s| s.borrow_mut().clear());
+    r
 }
 
 /// Runs a case generator with the "other event loop" switch on: every `ProgScene` built through
@@ -59,7 +71,7 @@ pub fn attach_for(mailbox: crate::scenes::Mailbox) -> Attach {
             crate::scenes::Mailbox::U => StreamVia::BuildOnStream,
             crate::scenes::Mailbox::B(n) => StreamVia::BoundedOnStream(n),
         };
-        Attach::Stream { via, prefill: vec![], close: false }
+        Attach::Stream { via, prefill: STREAM_ITEMS.with(|s| s.borrow().clone()), close: false }
     } else {
         Attach::None
     }
@@ -128,6 +140,13 @@ pub struct ProgScene<X> {
 impl<X> Scene for ProgScene<X> {
     fn roles(&self) -> Vec<RoleCfg> {
         self.roles.clone()
+    }
+
+    /// registry hygiene for scenes whose actor uses the broker
+    fn pre(&self) {
+        use futures::FutureExt as _;
+        let _ = hannibal::Addr::<hannibal::Broker<crate::world::T1>>::unregister().now_or_never();
+        let _ = hannibal::Addr::<hannibal::Broker<crate::world::T2>>::unregister().now_or_never();
     }
 
     fn setup(&self, exec: &Exec) {
